@@ -6,6 +6,16 @@ from common import Rng
 import pytrs
 from pytrs.parser.config.master_config import MasterConfig
 
+
+def safely(rep, what, f, *a):
+    """run one oracle check; an exception escaping the library is itself a failing input for the observables"""
+    try:
+        return f(rep, *a)
+    except Exception as e:  # noqa
+        rep.violation('failing-input', {'check': what, 'args': [str(x)[:300] for x in a], 'why': f'raised {type(e).__name__}: {e}'})
+        return None
+
+
 RULE = ("Twp/Rge numbers (1-3 digits) x N/S x E/W x documented spellings x presence/absence of each direction letter x "
         "default_ns/default_ew via config string, keyword and MasterConfig x ocr_scrub, embedded in a description with "
         "neighbours (start, ', ', newline, Sec, aliquots such as 'N2 W2', 'Lot 2,'); non-trivial = spelling differs from "
@@ -121,9 +131,9 @@ def run(ctx):
         tail = r.choice(TAILS)
         channel = r.choice(['config', 'keyword', 'master'])
         # explicit directions: defaults are the opposite ones and must not matter
-        check_explicit(rep, t, ns, rg, ew, sp, tail, 's' if ns == 'N' else 'n', 'e' if ew == 'W' else 'w', channel)
+        safely(rep, 'explicit', check_explicit, t, ns, rg, ew, sp, tail, 's' if ns == 'N' else 'n', 'e' if ew == 'W' else 'w', channel)
         msp, hn, he = r.choice(missing_dir_spellings(t, ns, rg, ew))
-        check_missing(rep, t, ns, rg, ew, msp, hn, he, tail, channel)
+        safely(rep, 'missing', check_missing, t, ns, rg, ew, msp, hn, he, tail, channel)
         if sp != f"T{t}{ns}-R{rg}{ew}":
             rep.nontrivial((sp + tail, channel))
         rep.nontrivial((msp + tail, channel))
